@@ -60,6 +60,22 @@ pub struct OpCase {
     pub run: Run,
 }
 
+/// The IEEE-754 primitives (round to nearest even, gradual underflow) computed in integer arithmetic: the expected numbers
+/// must not depend on the floating-point mode the CPU is in when the operator runs (the ambient pass changes what the
+/// thread did before, and a library that leaves the CPU in flush-to-zero mode would otherwise fool oracle and subject alike).
+pub fn pm(a: f64, b: f64) -> f64 {
+    if fin(a) && fin(b) { exact::soft_mul(a, b) } else { a * b }
+}
+pub fn pa(a: f64, b: f64) -> f64 {
+    if fin(a) && fin(b) { exact::soft_add(a, b) } else { a + b }
+}
+pub fn ps(a: f64, b: f64) -> f64 {
+    if fin(a) && fin(b) { exact::soft_sub(a, b) } else { a - b }
+}
+fn fin(x: f64) -> bool {
+    (x.to_bits() >> 52) & 0x7ff != 0x7ff
+}
+
 fn cmp_nums(what: &str, got: &[f64], want: &[f64]) -> Result<(), (String, Value)> {
     if all_bits_eq(got, want) {
         Ok(())
@@ -87,7 +103,7 @@ where
         run: Box::new(|a, _b, s| {
             let f = T::from_nums(a);
             let r = guard(|| f * s).map_err(|p| (format!("`*` panicked: {p}"), json!(p)))?;
-            let want: Vec<f64> = a.iter().map(|c| c * s).collect();
+            let want: Vec<f64> = a.iter().map(|&c| pm(c, s)).collect();
             cmp_nums("f * s is not the correctly rounded s*c number by number", &r.nums(), &want)?;
             for &x in T::args() {
                 close("(f*s)(x) != s*f(x)", r.evaluate(x), s * f.evaluate(x), VT * s.abs() * f.major(x), x)?;
@@ -105,7 +121,7 @@ where
         run: Box::new(|a, _b, s| {
             let mut f = T::from_nums(a);
             guard(|| f *= s).map_err(|p| (format!("`*=` panicked: {p}"), json!(p)))?;
-            let want: Vec<f64> = a.iter().map(|c| c * s).collect();
+            let want: Vec<f64> = a.iter().map(|&c| pm(c, s)).collect();
             cmp_nums("f *= s does not give the correctly rounded s*c number by number (the result of `*`)", &f.nums(), &want)
         }),
     }
@@ -137,7 +153,7 @@ where
         run: Box::new(|a, b, _s| {
             let (f, g) = (T::from_nums(a), T::from_nums(b));
             let r = guard(|| f + g).map_err(|p| (format!("`+` panicked: {p}"), json!(p)))?;
-            let want: Vec<f64> = a.iter().zip(b).map(|(x, y)| x + y).collect();
+            let want: Vec<f64> = a.iter().zip(b).map(|(&x, &y)| pa(x, y)).collect();
             cmp_nums("f1 + f2 is not the correctly rounded c1+c2 number by number", &r.nums(), &want)?;
             for &x in T::args() {
                 close("(f1+f2)(x) != f1(x)+f2(x)", r.evaluate(x), f.evaluate(x) + g.evaluate(x), VT * (f.major(x) + g.major(x)), x)?;
@@ -157,7 +173,7 @@ where
             let mut r = f;
             guard(|| r.translate(s)).map_err(|p| (format!("translate panicked: {p}"), json!(p)))?;
             let mut want = a.to_vec();
-            want[0] = a[0] + s; // the additive constant is number 0 of every form (coefficient 0, or k)
+            want[0] = pa(a[0], s); // the additive constant is number 0 of every form (coefficient 0, or k)
             cmp_nums("translate(c) must add c to the additive constant and change nothing else", &r.nums(), &want)?;
             for &x in T::args() {
                 close("translate(c) does not raise the value by c", r.evaluate(x), f.evaluate(x) + s, VT * (f.major(x) + s.abs()), x)?;
@@ -172,7 +188,7 @@ fn q4_ref_case(sub: bool) -> OpCase {
         run: Box::new(move |a, b, _s| {
             let (f, g) = (IntOfLogPoly4::from_nums(a), IntOfLogPoly4::from_nums(b));
             let r = guard(|| if sub { &f - &g } else { &f + &g }).map_err(|p| (format!("reference operator panicked: {p}"), json!(p)))?;
-            let want: Vec<f64> = a.iter().zip(b).map(|(x, y)| if sub { x - y } else { x + y }).collect();
+            let want: Vec<f64> = a.iter().zip(b).map(|(&x, &y)| if sub { ps(x, y) } else { pa(x, y) }).collect();
             cmp_nums("reference +/- on IntOfLogPoly4 is not number by number", &r.nums(), &want)
         }),
     }
@@ -183,7 +199,7 @@ fn q4_sub_case() -> OpCase {
         run: Box::new(|a, b, _s| {
             let (f, g) = (IntOfLogPoly4::from_nums(a), IntOfLogPoly4::from_nums(b));
             let r = guard(|| f - g).map_err(|p| (format!("`-` panicked: {p}"), json!(p)))?;
-            let want: Vec<f64> = a.iter().zip(b).map(|(x, y)| x - y).collect();
+            let want: Vec<f64> = a.iter().zip(b).map(|(&x, &y)| ps(x, y)).collect();
             cmp_nums("f1 - f2 is not the correctly rounded c1-c2 number by number", &r.nums(), &want)?;
             for &x in IntOfLogPoly4::args() {
                 close("(f1-f2)(x) != f1(x)-f2(x)", r.evaluate(x), f.evaluate(x) - g.evaluate(x), VT * (f.major(x) + g.major(x)), x)?;
@@ -198,7 +214,7 @@ fn polyn_translate_case(len: usize) -> OpCase {
         run: Box::new(move |a, _b, s| {
             let mut r = PolyN(a.to_vec());
             guard(|| r.translate(s)).map_err(|p| (format!("translate panicked: {p}"), json!(p)))?;
-            let want = if a.is_empty() { vec![s] } else { let mut w = a.to_vec(); w[0] = a[0] + s; w };
+            let want = if a.is_empty() { vec![s] } else { let mut w = a.to_vec(); w[0] = pa(a[0], s); w };
             cmp_nums("PolyN::translate(c) must add c to coefficient 0 (empty polynomial becomes [c])", &r.0, &want)
         }),
     }
